@@ -207,7 +207,12 @@ func (ms *Modules) resolveIdentities() []error {
 			errs = append(errs, fmt.Errorf("%s: identity %s is derived from itself", Source(i.Identity), i.Identity.Name))
 		}
 		sort.SliceStable(newValues, func(j, k int) bool {
-			return newValues[j].Name < newValues[k].Name
+			if newValues[j].Name != newValues[k].Name {
+				return newValues[j].Name < newValues[k].Name
+			}
+			// Identities of the same name defined in different
+			// modules: order them by their module.
+			return newValues[j].modulePrefixedName() < newValues[k].modulePrefixedName()
 		})
 		i.Identity.Values = newValues
 	}
